@@ -207,6 +207,18 @@ func init() {
 		for _, hist := range [][]string{{"{{name}}", "{{name}}"}, {"{{name}}", "{{name}}", "{{name}}"}, {"{{nAmE}} {{a}}", "{{name}}", "{{nAmE}} {{a}}", "{{NAME}}"}, {"{{#name}}{{a}}{{/name}}", "{{name}}{{A}}", "{{#name}}{{a}}{{/name}}"}} {
 			runTemplateHistory(c, hist)
 		}
+		// … and neighbours that differ in white space only: between tokens it is irrelevant, inside string constants and quoted
+		// identifiers it is data; a no-break space is no white space of the language at all
+		for _, e := range []string{"'Dear  ' + 'customer'", "'a  b' IN Array('a  b', 'x')", "\"my  var\" + 1", "1 + 2", "a  +  b", "'x'  +  ' '", "Max( 1 ,  2 )"} {
+			collapsed := strings.Join(strings.Fields(e), " ")
+			for _, v := range []string{collapsed, strings.ReplaceAll(e, "  ", " "), strings.ReplaceAll(e, " ", "  "), strings.ReplaceAll(e, " ", "\t"), strings.ReplaceAll(e, " ", "\u00a0"), strings.ReplaceAll(e, "  ", " \n "), strings.Replace(e, " ", "\u0085", 1)} {
+				if v != e {
+					runParserHistory(c, []string{e, v})
+					runParserHistory(c, []string{v, e})
+					runParserHistory(c, []string{e, v, e})
+				}
+			}
+		}
 		for _, s := range []string{"Hello {{name}}!", "{{#A}}x{{/A}} Y", "{{{Name}}} and {{B}}", "text only"} {
 			for _, v := range []string{swapCase(s), strings.ToUpper(s), strings.ToLower(s), s + " ", s, s + "."} {
 				runTemplateHistory(c, []string{s, v})
